@@ -11,8 +11,11 @@
 //
 // Reference classification: the AST node type produced by Gaea's own parser
 // (parser.ParseOneStmt) for the decorated text — independent of the token-based
-// parser.Preview used by the check under test. A decorated text is part of the universe only
-// if the parser accepts it and yields the same node type as the undecorated statement.
+// parser.Preview used by the check under test. Decorations that change the token stream
+// (parentheses, executable version comment) are part of the universe only if the parser accepts
+// the text and yields the same node type as the plain statement; for whitespace / comment /
+// letter-case decorations the parser cannot read (a leading `/*+ h */`, a hint behind
+// INSERT/REPLACE) the plain statement's node type is used.
 //
 // Oracle (statement, word by word): a modifying statement from a read-only user is
 // "rejected" (the response to the statement ends with an ERR packet, or the proxy closes the
@@ -24,7 +27,6 @@ import (
 	"fmt"
 	"os"
 	"reflect"
-	"runtime/pprof"
 	"sort"
 	"strings"
 	"sync"
@@ -217,10 +219,17 @@ type caseT struct {
 	User      string `json:"user"`
 	NS        string `json:"ns"`
 	Table     string `json:"table"`
-	SQL       string `json:"sql"`  // the decorated statement as sent (prepared: with ? placeholders)
-	Base      string `json:"base"` // the plain statement the decoration was applied to
+	SQL       string `json:"sql"`    // the decorated statement as sent (prepared: with ? placeholders)
+	Base      string `json:"base"`   // the plain statement the decoration was applied to
 	Parses    bool   `json:"parses"` // Gaea's parser accepts the decorated text
 }
+
+type classT struct {
+	mod  bool
+	node string
+}
+
+var classCache = map[string]classT{}
 
 type worker struct {
 	w  *rig.World
@@ -244,10 +253,16 @@ func runCase(r *ev.Run, wk *worker, c caseT) outcome {
 	if !c.Parses {
 		ref = c.Base
 	}
-	mod, node, err := modifying(strings.ReplaceAll(ref, "?", "1"))
-	if err != nil {
-		ev.Fatalf("case outside the universe (parser rejects it): %q: %v", ref, err)
+	ref = strings.ReplaceAll(ref, "?", "1")
+	cls, ok := classCache[ref] // filled while the universe is built; read-only afterwards
+	if !ok {
+		mod, node, err := modifying(ref)
+		if err != nil {
+			ev.Fatalf("case outside the universe (parser rejects it): %q: %v", ref, err)
+		}
+		cls = classT{mod, node}
 	}
+	mod, node := cls.mod, cls.node
 	o.Modifying, o.Node = mod, node
 
 	caps := uint32(rig.CapsBase)
@@ -366,12 +381,6 @@ func newWorker(i int) *worker {
 
 func main() {
 	gx.Quiet()
-	if f := os.Getenv("C21_PROF"); f != "" {
-		fh, _ := os.Create(f)
-		pprof.StartCPUProfile(fh)
-		defer pprof.StopCPUProfile()
-		stopProf = pprof.StopCPUProfile
-	}
 	r := ev.Start("C21", "exploration")
 
 	const nWorkers = 16
@@ -421,6 +430,15 @@ func main() {
 				continue // no table in the statement: the sharded-table place adds nothing
 			}
 			for _, d := range decos {
+				ndev := 0
+				for _, x := range []int{d.lead, d.cs, d.after} {
+					if x != 0 {
+						ndev++
+					}
+				}
+				if r.Quick() && ndev == 2 && pl != places[0] {
+					continue // quick: doubly decorated texts only in the namespace without shard rules
+				}
 				for _, tr := range transports {
 					base := k.SQL
 					if tr == "prepared" && k.PSQL != "" {
@@ -453,6 +471,17 @@ func main() {
 						unparsed++
 					}
 					texts++
+					ref := probe
+					if !parses {
+						ref = strings.ReplaceAll(base, "?", "1")
+					}
+					if _, ok := classCache[ref]; !ok {
+						m, nd, err := modifying(ref)
+						if err != nil {
+							ev.Fatalf("classification of %q: %v", ref, err)
+						}
+						classCache[ref] = classT{m, nd}
+					}
 					for _, u := range users {
 						all = append(all, caseT{Kind: k.Name, Lead: leads[d.lead].Name, Case: cases[d.cs],
 							After: afters[d.after].Name, Transport: tr, User: u, NS: pl.NS, Table: pl.Table, SQL: sql, Base: base, Parses: parses})
@@ -493,8 +522,8 @@ func main() {
 	r.Set("texts_classified_by_plain_statement", unparsed)
 	r.Set("bound", map[string]interface{}{
 		"kinds": len(kinds), "leads": len(leads), "letter_cases": len(cases), "separators_after_keyword": len(afters),
-		"decoration_vectors": fmt.Sprintf("%d (%s)", len(decos), map[bool]string{true: "<=2 deviations from plain", false: "full product"}[r.Quick()]),
-		"transports": transports, "users": users, "places": places,
+		"decoration_vectors": fmt.Sprintf("%d (%s)", len(decos), map[bool]string{true: "<=2 deviations from plain; 2-deviation vectors only for the namespace without shard rules", false: "full product"}[r.Quick()]),
+		"transports":         transports, "users": users, "places": places,
 	})
 	r.Set("rule", "every statement kind x decoration vector (lead, letter case, separator after the first keyword) x transport x read-only user x (namespace, table) whose decorated text Gaea's parser accepts with the same AST node type as the plain statement; each case runs on a fresh real Session. distinct_nontrivial = distinct cases in which a statement the AST classifies as data/schema modifying was really turned away (ERR response and nothing reached a fake backend); non-modifying kinds and accepted statements are not counted.")
 	r.Assume("the AST node type of Gaea's parser (ParseOneStmt) is the reference for 'could modify data or schema'; decorated texts the parser rejects or classifies differently are outside the universe")
@@ -505,10 +534,5 @@ func main() {
 	if r.Count("reads_served") == 0 {
 		ev.Fatalf("vacuous: no read was ever served by a fake backend")
 	}
-	if stopProf != nil {
-		stopProf()
-	}
 	r.Finish()
 }
-
-var stopProf func()
